@@ -293,15 +293,16 @@ CLAIMED["C11"] = dict(
           "zero samples, _scaleEqualSum, build_graph / prune_graph. Specification layer over R: the least-squares objective of the ratio "
           "equations. Theorems: median ratio of consistent data = b_i/b_j; a pair gets a ratio only with enough own and shared peptides; "
           "FastLFQ keeps only graph edges; the three stabilisation regimes; vanishing gradient => global least-squares minimiser; on "
-          "consistent data every minimiser reproduces b_i/b_j between all linked samples; rescaling keeps solution ratios, sums to the "
+          "consistent data every minimiser reproduces b_i/b_j between all linked samples; multiplying all intensities by a constant changes "
+          "neither which pairs get a ratio nor any median ratio (scaling); rescaling keeps solution ratios, sums to the "
           "total, unlinked samples 0; and a REFUTATION: 'permutes with the samples' is false of the faithful model (arithmetic median "
           "of an even number of ratios is not reciprocal) - known finding D13. Correspondence: the real _getLFQIntensities with its "
           "stages recorded (matrix and total exact, medians 1e-13, log ratios through a tabulated ln 1e-11, zero pattern, total 1e-9, "
           "normal equations 1e-3 on the implementation's own answer); append_columns: the graph handed down vs the Coq graph model, "
           "columns = per-group results; metamorphic runs (order-preserving renaming, precursor order, scaling, sample permutation)."),
     note=COMMON_NOTE + "PARTIAL: np.log/np.exp, float division, bottleneck.nanmedian and scipy's iterative lsqr are outside the model; the "
-         "final comparison is tolerance-based (supporting evidence, not exact correspondence). Precursor-order, scaling and renaming "
-         "invariance are metamorphic tests on the implementation, not theorems. Axioms (theorems over R only): "
+         "final comparison is tolerance-based (supporting evidence, not exact correspondence). Precursor-order and renaming "
+         "invariance are metamorphic tests on the implementation, not theorems (scaling is both). Axioms (theorems over R only): "
          "ClassicalDedekindReals.sig_forall_dec, ClassicalDedekindReals.sig_not_dec, FunctionalExtensionality.functional_extensionality_dep.",
     technique="Coq proofs (exact Q model + least-squares specification over Reals) + staged differential correspondence with tolerance + metamorphic runs",
     design="5/C11")
